@@ -224,6 +224,13 @@ def gen_instr(isa, shape, rnd, pool=None, vpool=None, args=None, same_width=Fals
             if isa == "x86":
                 t = "%d(%%%s)" % (disp, bname) if disp else "(%%%s)" % bname
                 LD.append({"b": b, "x": "", "s": 1, "d": disp, "t": t})
+            elif shape["wb"] == "post" and not same_width and rnd.random() < 0.3:
+                # register post-index: the base is written back by an amount the analysis cannot know.
+                # The amount register is one no generated instruction writes (x27): OSACA's parser
+                # returns it as an identifier, so whether it counts as a register read is not claimed.
+                t = "[%s], x27" % bname
+                LD.append({"b": b, "x": "", "s": 1, "d": 0, "t": t})
+                WB.add(b)
             elif shape["wb"] == "post":
                 imm = rnd.choice([8, 16, -8])
                 t = "[%s], #%d" % (bname, imm)
